@@ -158,17 +158,22 @@ ob("c09::from_primitive_routes", "C09", cls="miter", timeout=300, functions=["Fr
 ob("c09::numcast_i64_exact", "C09", timeout=600, functions=["NumCast for TwoFloat"])
 
 # ------------------------------------------------------------------ C10
-_C10 = ['forms_add_tf_f64_h', 'forms_add_f64_tf_h', 'forms_add_tf_tf_h', 'forms_sub_tf_f64_h', 'forms_sub_f64_tf_h', 'forms_sub_tf_tf_h', 'forms_mul_tf_f64_h', 'forms_mul_f64_tf_h', 'forms_mul_tf_tf_h', 'forms_div_tf_f64_h', 'forms_div_f64_tf_h', 'forms_div_tf_tf_h', 'forms_rem_tf_f64_h', 'forms_rem_f64_tf_h', 'forms_rem_tf_tf_h', 'neg_forms', 'commute_tf_f64', 'sub_is_add_neg_tf_tf', 'sub_is_add_neg_tf_f64', 'add_commutes_tf_tf', 'mul_sign_symmetry', 'sum_is_left_fold', 'deleg_float_exp', 'deleg_float_exp2', 'deleg_float_exp_m1', 'deleg_float_ln', 'deleg_float_ln_1p', 'deleg_float_log2', 'deleg_float_log10', 'deleg_float_sqrt', 'deleg_float_cbrt', 'deleg_float_sin', 'deleg_float_cos', 'deleg_float_tan', 'deleg_float_asin', 'deleg_float_acos', 'deleg_float_atan', 'deleg_float_sinh', 'deleg_float_cosh', 'deleg_float_tanh', 'deleg_float_asinh', 'deleg_float_acosh', 'deleg_float_atanh', 'deleg_float_powf', 'deleg_float_log', 'deleg_float_hypot', 'deleg_float_atan2', 'deleg_float_sin_cos', 'deleg_powi', 'deleg_recip_inv', 'deleg_pow_i8', 'deleg_pow_i16', 'deleg_pow_u8', 'deleg_pow_u16', 'deleg_pow_tf', 'deleg_pow_f64', 'deleg_float_floor', 'deleg_float_ceil', 'deleg_float_round', 'deleg_float_trunc', 'deleg_float_fract', 'deleg_float_to_degrees', 'deleg_float_to_radians', 'deleg_sign_minmax', 'deleg_mul_add_abs_sub', 'deleg_constants', 'identities_sample', 'negation_identities_bitwise', 'sum_is_left_fold_sample']
+_C10 = ['forms_add_tf_f64_h', 'forms_add_tf_f64_w', 'forms_add_f64_tf_h', 'forms_add_f64_tf_w', 'forms_add_tf_tf_h', 'forms_add_tf_tf_w', 'forms_sub_tf_f64_h', 'forms_sub_tf_f64_w', 'forms_sub_f64_tf_h', 'forms_sub_f64_tf_w', 'forms_sub_tf_tf_h', 'forms_sub_tf_tf_w', 'forms_mul_tf_f64_h', 'forms_mul_tf_f64_w', 'forms_mul_f64_tf_h', 'forms_mul_f64_tf_w', 'forms_mul_tf_tf_h', 'forms_mul_tf_tf_w', 'forms_div_tf_f64_h', 'forms_div_tf_f64_w', 'forms_div_f64_tf_h', 'forms_div_f64_tf_w', 'forms_div_tf_tf_h', 'forms_div_tf_tf_w', 'forms_rem_tf_f64_h', 'forms_rem_f64_tf_h', 'forms_rem_tf_tf_h', 'neg_forms', 'commute_tf_f64', 'sub_is_add_neg_tf_tf', 'sub_is_add_neg_tf_f64', 'add_commutes_tf_tf', 'mul_sign_symmetry', 'sum_is_left_fold', 'deleg_float_exp', 'deleg_float_exp2', 'deleg_float_exp_m1', 'deleg_float_ln', 'deleg_float_ln_1p', 'deleg_float_log2', 'deleg_float_log10', 'deleg_float_sqrt', 'deleg_float_cbrt', 'deleg_float_sin', 'deleg_float_cos', 'deleg_float_tan', 'deleg_float_asin', 'deleg_float_acos', 'deleg_float_atan', 'deleg_float_sinh', 'deleg_float_cosh', 'deleg_float_tanh', 'deleg_float_asinh', 'deleg_float_acosh', 'deleg_float_atanh', 'deleg_float_powf', 'deleg_float_log', 'deleg_float_hypot', 'deleg_float_atan2', 'deleg_float_sin_cos', 'deleg_powi', 'deleg_recip_inv', 'deleg_pow_i8', 'deleg_pow_i16', 'deleg_pow_u8', 'deleg_pow_u16', 'deleg_pow_tf', 'deleg_pow_f64', 'deleg_float_floor', 'deleg_float_ceil', 'deleg_float_round', 'deleg_float_trunc', 'deleg_float_fract', 'deleg_float_to_degrees', 'deleg_float_to_radians', 'deleg_sign_minmax', 'deleg_mul_add_abs_sub', 'deleg_constants', 'identities_sample', 'negation_identities_bitwise', 'sum_is_left_fold_sample']
 _C10_THOROUGH = {"sub_is_add_neg_tf_tf", "sub_is_add_neg_tf_f64", "add_commutes_tf_tf", "mul_sign_symmetry", "sum_is_left_fold"}
 for _n in _C10:
     if _n in ("identities_sample", "negation_identities_bitwise", "sum_is_left_fold_sample"):
         continue
     _cls = "miter"
     _be = "cbmc+cvc5" if (_n.startswith("forms_") and "rem" not in _n) or _n in ("neg_forms", "commute_tf_f64", "deleg_mul_add_abs_sub") or _n in _C10_THOROUGH else "cbmc+kissat"
+    if _n.endswith("_w"):
+        ob("c10::" + _n, "C10", tier="witness", cls="bounded", timeout=300, functions=["operator forms (witness search): " + _n],
+           bound={"significand_bits": "10 (one low word full width)", "exponents": "[2^-40, 2^40] or zero"})
+        continue
     if _n in _C10_THOROUGH:
         continue  # identities that do not close (cvc5 900 s time-out, CBMC status 6 on the iterator fold): not registered, listed as undecided clauses
     ob("c10::" + _n, "C10", cls=_cls, timeout=900 if _n.startswith("forms_") or _n == "deleg_mul_add_abs_sub" else 300, backend=_be,
-       functions=["operator forms / num_traits delegation: " + _n])
+       functions=["operator forms / num_traits delegation: " + _n],
+       witness=("c10::" + _n[:-2] + "_w") if (_n.startswith("forms_") and _n.endswith("_h") and "rem" not in _n) else None)
 
 ob("c10::identities_sample", "C10", cls="ground", native=True, functions=["Add/Sub/Mul/Neg impls (algebraic identities, 14x14 structured operand pairs)"])
 ob("c10::negation_identities_bitwise", "C10", cls="ground", native=True, functions=["Sub/Mul/Neg impls (negation identities, bit for bit)"])
